@@ -2,6 +2,7 @@ pub mod c02;
 pub mod c03;
 pub mod c04;
 pub mod c05;
+pub mod c07;
 pub mod c12;
 pub mod c13;
 
@@ -21,6 +22,7 @@ pub fn dispatch(ctx: &Ctx, replay: Option<&str>) -> i32 {
         "C03" => p!(c03),
         "C04" => p!(c04),
         "C05" => p!(c05),
+        "C07" => p!(c07),
         "C12" => p!(c12),
         "C13" => p!(c13),
         other => {
